@@ -681,7 +681,7 @@ static size_t bign96Sign2_deep(size_t n, size_t f_deep, size_t ec_d,
 		beltHash_keep() +
 		utilMax(6,
 			beltHash_keep(),
-			32,
+			(size_t)32,
 			beltKWP_keep(),
 			ecMulA_deep(n, ec_d, ec_deep, n),
 			zzMul_deep(W_OF_O(13), n),
